@@ -4,6 +4,7 @@ import TaskModel.Load.VarsLemmas
 import TaskModel.Load.Siblings
 import TaskModel.Load.NormalizeLemmas
 import TaskModel.Load.Sites
+import TaskModel.Load.ReaderLemmas
 import TaskModel.Gen.Load
 import TaskModel.Vars.Dotenv
 /-!
@@ -179,6 +180,46 @@ order-sensitive site iterates unsorted** (`Gen.NondetSites` is regenerated from 
 under test on every run; before F14 this fails on `graph.TopologicalSort` and on the
 range over the predecessor map). -/
 theorem all_sites_classified : NondetSites.sites.all siteOk = true := by decide
+
+/-- **the walk in the source** (`Gen.Load.firstErrorWalk`, regenerated): `Reader.firstError`
+marks the file seen, returns the error of reading it, then goes through its includes IN THE
+ORDER THEY ARE DECLARED: the error of resolving the include; nothing for an optional include
+that was not found; an include cycle if the file included is the file itself or on the
+stack; nothing for a file already seen; otherwise the first error of the file included — the
+rules of `Load.walk` / `Load.walkIncs`, one for one. -/
+theorem first_error_walk_in_source :
+    Load.firstErrorWalk =
+      ["‹p2›[‹p0›] = true", "‹0› := r.results[‹p0›]", "if ‹0› == nil", "  return nil", "if ‹0›.err != nil", "  return ‹0›.err",
+       "range ‹0›.includes", "  if ‹1›.err != nil", "    return ‹1›.err", "  if ‹1›.location == \"\"", "    continue",
+       "  if slices.Contains(‹p1›, ‹1›.location) || ‹1›.location == ‹p0›",
+       "    return errors.TaskfileCycleError{Source: ‹p0›, Destination: ‹1›.location}", "  if ‹p2›[‹1›.location]", "    continue",
+       "  if ‹2› := r.firstError(‹1›.location, append(‹p1›, ‹p0›), ‹p2›); ‹2› != nil", "    return ‹2›", "return nil"]
+    ∧ readErrorIsCanonical = true := by decide
+
+/-- **which error is reported does not depend on the schedule.**  Whatever error the
+concurrent read came up with first in time (`inTime`: any function of the schedule), what
+`Reader.Read` returns — the graph when every file reads, else the error found by the walk
+`firstError` over the recorded results — is the outcome of reading the files one after the
+other in declaration order (`readGraph`), error included. -/
+theorem C09_read_error_schedule_indep (fm : FileMap) (root : Nat) (inTime : Err → Err) :
+    (match readGraph fm root with
+     | .ok g => Except.ok g
+     | .error e => Except.error ((firstError fm root).getD (inTime e))) = readGraph fm root := by
+  have h := firstError_eq fm root
+  cases hr : readGraph fm root with
+  | ok g => rfl
+  | error e => rw [hr] at h; simp [h]
+
+/-- the rule before the fix: the error first in time was returned as it was.  Root including
+a missing file and a file without `version:` — the two completion orders give two different
+errors (exit 1 vs 107), the walk gives the first in declaration order -/
+theorem C09_old_rule_multierr_counterexample :
+    let fm : FileMap := [(0, ⟨3, false, [], [], [], [], [⟨[97], 7, [], false, false, false, false, [], [], []⟩,
+                              ⟨[98], 1, [], false, false, false, false, [], [], []⟩], {}, 0⟩),
+                         (1, ⟨0, false, [], [], [], [], [], {}, 0⟩)]
+    firstError fm 0 = some .missing ∧
+    -- what the two goroutines report, each on its own:
+    firstError [(1, ⟨0, false, [], [], [], [], [], {}, 0⟩)] 1 = some .versionCheck := by decide
 
 /-- the reader attaches the include statements to an edge after `g.Wait()`, in declaration
 order, not from the goroutines in completion order -/
